@@ -368,6 +368,25 @@ def run_random(rng, drv, profile, tid):
                 do(ev0("Advance", d=min(drv.next_sweep - now, target - now)))
         if drv.now_ticks() >= drv.next_sweep:
             do(ev0("Sweep"))
+        if rng.random() < 0.5 and drv.up and len(drv.conn_names) >= 2:
+            # afterwards (same process, everything expired) somebody -- of any app -- uses the same
+            # mailbox id / nameplate again, and a second side joins
+            a2 = rng.choice(p["apps"])
+            i2 = rng.choice(p["client_mbox"])
+            c1, c2 = drv.conn_names[0], drv.conn_names[1]
+            sd = list(p["sides"])
+            for (c, sx) in ((c1, sd[0]), (c2, sd[1 % len(sd)])):
+                do(ev0("Connect", c=c))
+                do(ev0("Cmd", c=c, m=msg0(type="bind", appid=a2, side=sx)))
+                if c in drv.protos:
+                    do(ev0("Cmd", c=c, m=msg0(type="open", mailbox=i2)))
+                if c in drv.protos:
+                    do(ev0("Cmd", c=c, m=msg0(type="add", phase="p9", body="b9")))
+            for c in (c1, c2):
+                if c in drv.protos:
+                    do(ev0("Cmd", c=c, m=msg0(type="close", mailbox=ABSENT, mood=ABSENT)))
+                if c in drv.protos:
+                    do(ev0("Drop", c=c))
     if cut:
         # the prefill itself is not part of the recorded trace: it starts from the state it left
         last = obs_list[cut - 1]
@@ -519,9 +538,20 @@ def run_reuse(rng, drv, profile, tid):
                     do(ev0("Drop", c=alt))
             if rng.random() < 0.15:
                 tick()
+        cur = told.get(0) or told.get(1) if via_np else mbox
+        # --- a third side tries to get in (it must be refused, whatever happened to this id before)
+        if rng.random() < 0.4 and cur:
+            third = [x for x in sides if x not in pair]
+            if third:
+                fresh(alt, app, rng.choice(third))
+                if via_np and rng.random() < 0.5:
+                    cmd(alt, type="claim", nameplate=name)
+                cmd(alt, type="open", mailbox=cur)
+                if rng.random() < 0.5:
+                    cmd(alt, type="open", mailbox=cur)      # and retries
+                do(ev0("Drop", c=alt))
         # --- leave
         how = rng.random()
-        cur = told.get(0) or told.get(1) if via_np else mbox
         leave = [0, 1]
         rng.shuffle(leave)
         for k in leave:
